@@ -710,6 +710,9 @@ class EStructuralFeature(ETypedElement):
             #     raise AttributeError('Cannot reafect an ECollection with '
             #                          'another one, even if compatible')
             if not isinstance(value, str) and isinstance(value, Iterable):
+                value = list(value)
+                for element in value:
+                    previous_value.check(element)
                 previous_value.clear()
                 previous_value.extend(value)
                 return
